@@ -1,1 +1,483 @@
-// filled in later
+//! Generators of beff Runtype IR for the semantic monitors: a bounded-exhaustive stream over a
+//! small alphabet, random types with named (mutually) recursive definitions, and one-edit variants.
+use crate::rng::Rng;
+use beff_core::ast::runtype::{IndexedProperty, Optionality, Runtype, RuntypeConst, RuntypeKind};
+use beff_core::{BffFileName, NamedSchema, RuntypeName, RuntypeUUID, TypeAddress};
+use std::collections::{BTreeMap, BTreeSet};
+
+pub fn uuid(name: &str) -> RuntypeUUID {
+    RuntypeUUID {
+        ty: RuntypeName::Address(TypeAddress { file: BffFileName::new("semmon.ts".into()), name: name.to_string() }),
+        type_arguments: vec![],
+    }
+}
+
+pub fn lit_s(s: &str) -> Runtype {
+    Runtype::single_string_const(s)
+}
+pub fn lit_n(n: i64) -> Runtype {
+    Runtype::const_(RuntypeConst::parse_int(n))
+}
+pub fn lit_b(b: bool) -> Runtype {
+    Runtype::const_(RuntypeConst::Bool(b))
+}
+pub fn raw_all_of(ms: Vec<Runtype>) -> Runtype {
+    Runtype::new(RuntypeKind::AllOf(BTreeSet::from_iter(ms)))
+}
+pub fn raw_any_of(ms: Vec<Runtype>) -> Runtype {
+    Runtype::new(RuntypeKind::AnyOf(BTreeSet::from_iter(ms)))
+}
+pub fn obj(props: Vec<(&str, Runtype, bool)>, index: Option<(Runtype, Runtype, bool)>) -> Runtype {
+    let vs: BTreeMap<String, Optionality<Runtype>> = props.into_iter().map(|(k, t, opt)| (k.to_string(), if opt { t.optional() } else { t.required() })).collect();
+    Runtype::new(RuntypeKind::Object {
+        vs,
+        indexed_properties: index.map(|(k, v, opt)| Box::new(IndexedProperty { key: k, value: if opt { v.optional() } else { v.required() } })),
+    })
+}
+
+pub fn leaves() -> Vec<Runtype> {
+    vec![Runtype::null(), Runtype::boolean(), lit_b(true), Runtype::number(), lit_n(1), Runtype::string(), lit_s("a")]
+}
+
+/// every type of exactly `size` nodes over the alphabet (memoised by the caller)
+pub fn exhaustive(size: usize, memo: &mut Vec<Vec<Runtype>>) -> Vec<Runtype> {
+    while memo.len() <= size {
+        let n = memo.len();
+        let out = if n == 0 {
+            vec![]
+        } else if n == 1 {
+            leaves()
+        } else {
+            let mut out: Vec<Runtype> = vec![];
+            for x in &memo[n - 1] {
+                out.push(Runtype::array(Box::new(x.clone())));
+                out.push(Runtype::tuple(vec![x.clone()], None));
+                out.push(obj(vec![("a", x.clone(), false)], None));
+                out.push(obj(vec![("a", x.clone(), true)], None));
+                out.push(obj(vec![], Some((Runtype::string(), x.clone(), false))));
+                out.push(obj(vec![], Some((raw_any_of(vec![lit_s("a"), lit_s("b")]), x.clone(), false))));
+            }
+            for i in 1..n - 1 {
+                let j = n - 1 - i;
+                for x in &memo[i] {
+                    for y in &memo[j] {
+                        if (i, x) < (j, y) {
+                            out.push(raw_any_of(vec![x.clone(), y.clone()]));
+                            out.push(raw_all_of(vec![x.clone(), y.clone()]));
+                        }
+                        out.push(Runtype::tuple(vec![x.clone(), y.clone()], None));
+                        out.push(Runtype::tuple(vec![x.clone()], Some(Box::new(y.clone()))));
+                        out.push(obj(vec![("a", x.clone(), false), ("b", y.clone(), false)], None));
+                        out.push(obj(vec![("a", x.clone(), false), ("b", y.clone(), true)], None));
+                        out.push(obj(vec![("a", x.clone(), false)], Some((Runtype::string(), y.clone(), false))));
+                    }
+                }
+            }
+            out
+        };
+        memo.push(out);
+    }
+    memo[size].clone()
+}
+
+pub struct RandGen<'a> {
+    pub rng: &'a mut Rng,
+    /// names that may be referenced (definitions are produced by `defs`)
+    pub names: Vec<String>,
+    pub allow_any: bool,
+}
+
+const KEYS: [&str; 4] = ["a", "b", "c", "kind"];
+
+impl RandGen<'_> {
+    pub fn leaf(&mut self) -> Runtype {
+        match self.rng.below(12) {
+            0 => Runtype::null(),
+            1 => Runtype::boolean(),
+            2 => lit_b(self.rng.chance(1, 2)),
+            3 | 4 => Runtype::number(),
+            5 => lit_n(1 + self.rng.below(3) as i64),
+            6 | 7 => Runtype::string(),
+            8 | 9 => lit_s(["a", "b", "c"][self.rng.below(3)]),
+            10 => {
+                if self.allow_any && self.rng.chance(1, 3) {
+                    Runtype::any()
+                } else {
+                    Runtype::number()
+                }
+            }
+            _ => Runtype::null(),
+        }
+    }
+
+    pub fn ty(&mut self, budget: usize, guarded: bool) -> Runtype {
+        if budget <= 1 {
+            if guarded && !self.names.is_empty() && self.rng.chance(1, 3) {
+                let n = self.rng.pick(&self.names).clone();
+                return Runtype::ref_(uuid(&n));
+            }
+            return self.leaf();
+        }
+        match self.rng.below(12) {
+            0 => Runtype::array(Box::new(self.ty(budget - 1, true))),
+            1 => {
+                let n = 1 + self.rng.below(3);
+                let each = (budget - 1) / n;
+                let prefix = (0..n).map(|_| self.ty(each.max(1), true)).collect();
+                let rest = if self.rng.chance(1, 3) { Some(Box::new(self.ty(each.max(1), true))) } else { None };
+                Runtype::tuple(prefix, rest)
+            }
+            2..=4 => {
+                let n = 1 + self.rng.below(3);
+                let each = ((budget - 1) / n).max(1);
+                let mut props = vec![];
+                let mut used = vec![];
+                for _ in 0..n {
+                    let k = *self.rng.pick(&KEYS);
+                    if used.contains(&k) {
+                        continue;
+                    }
+                    used.push(k);
+                    props.push((k, self.ty(each, true), self.rng.chance(1, 3)));
+                }
+                let index = if self.rng.chance(1, 4) {
+                    let key = if self.rng.chance(2, 3) { Runtype::string() } else { raw_any_of(vec![lit_s("a"), lit_s("b")]) };
+                    Some((key, self.ty(each, true), self.rng.chance(1, 5)))
+                } else {
+                    None
+                };
+                obj(props, index)
+            }
+            5..=7 => {
+                let n = 2 + self.rng.below(2);
+                let each = ((budget - 1) / n).max(1);
+                let ms: Vec<Runtype> = (0..n).map(|_| self.ty(each, guarded)).collect();
+                if self.rng.chance(1, 2) { Runtype::any_of(ms) } else { raw_any_of(ms) }
+            }
+            8 | 9 => {
+                let each = ((budget - 1) / 2).max(1);
+                let ms: Vec<Runtype> = (0..2).map(|_| self.ty(each, guarded)).collect();
+                if self.rng.chance(1, 3) { Runtype::all_of(ms) } else { raw_all_of(ms) }
+            }
+            10 => {
+                // discriminated-looking union of objects
+                let a = obj(vec![("kind", lit_s("a"), false), ("a", self.ty((budget - 1) / 2, true), self.rng.chance(1, 3))], None);
+                let b = obj(vec![("kind", lit_s("b"), false), ("b", self.ty((budget - 1) / 2, true), self.rng.chance(1, 3))], None);
+                raw_any_of(vec![a, b])
+            }
+            _ => self.ty(budget - 1, guarded),
+        }
+    }
+
+    /// 1-3 named definitions that may refer to each other (references sit below a constructor)
+    pub fn defs(&mut self, n: usize) -> Vec<NamedSchema> {
+        self.names = (0..n).map(|i| format!("N{}", i)).collect();
+        let mut out = vec![];
+        for i in 0..n {
+            let body = match self.rng.below(5) {
+                0 => {
+                    // list-like: { v: T; next?: Ni } or { v: T; next: Ni | null }
+                    let me = Runtype::ref_(uuid(&format!("N{}", self.rng.below(n))));
+                    let next = if self.rng.chance(1, 2) { ("next", me, true) } else { ("next", raw_any_of(vec![me, Runtype::null()]), false) };
+                    obj(vec![("v", self.ty(2, true), false), next], None)
+                }
+                1 => {
+                    // tree-like
+                    let me = Runtype::ref_(uuid(&format!("N{}", self.rng.below(n))));
+                    obj(vec![("kids", Runtype::array(Box::new(me)), self.rng.chance(1, 3)), ("v", self.leaf(), false)], None)
+                }
+                2 => {
+                    // recursive tuple
+                    let me = Runtype::ref_(uuid(&format!("N{}", self.rng.below(n))));
+                    Runtype::tuple(vec![self.leaf(), raw_any_of(vec![me, Runtype::null()])], None)
+                }
+                _ => self.ty(5, false),
+            };
+            out.push(NamedSchema { name: uuid(&format!("N{}", i)), schema: body });
+        }
+        out
+    }
+}
+
+/// a variant of `t` that differs in one place
+pub fn one_edit(rng: &mut Rng, t: &Runtype) -> Runtype {
+    let edit_leaf = |rng: &mut Rng| -> Runtype {
+        match rng.below(7) {
+            0 => Runtype::null(),
+            1 => Runtype::number(),
+            2 => Runtype::string(),
+            3 => lit_n(1 + rng.below(3) as i64),
+            4 => lit_s(["a", "b", "c"][rng.below(3)]),
+            5 => Runtype::boolean(),
+            _ => Runtype::never(),
+        }
+    };
+    match &t.kind {
+        RuntypeKind::Array(e) => {
+            if rng.chance(1, 3) {
+                Runtype::tuple(vec![(**e).clone()], Some(e.clone()))
+            } else {
+                Runtype::array(Box::new(one_edit(rng, e)))
+            }
+        }
+        RuntypeKind::Tuple { prefix_items, items } => {
+            let mut p = prefix_items.clone();
+            let mut it = items.clone();
+            match rng.below(4) {
+                0 if !p.is_empty() => {
+                    let i = rng.below(p.len());
+                    p[i] = one_edit(rng, &p[i]);
+                }
+                1 => {
+                    p.push(edit_leaf(rng));
+                }
+                2 if !p.is_empty() => {
+                    p.pop();
+                }
+                _ => {
+                    it = match it {
+                        Some(_) => None,
+                        None => Some(Box::new(edit_leaf(rng))),
+                    };
+                }
+            }
+            Runtype::tuple(p, it)
+        }
+        RuntypeKind::Object { vs, indexed_properties } => {
+            let mut vs = vs.clone();
+            let mut ip = indexed_properties.clone();
+            let keys: Vec<String> = vs.keys().cloned().collect();
+            match rng.below(5) {
+                0 if !keys.is_empty() => {
+                    let k = rng.pick(&keys).clone();
+                    let cur = vs.remove(&k).unwrap();
+                    vs.insert(k, if cur.is_required() { cur.to_optional() } else { cur.to_required() });
+                }
+                1 if !keys.is_empty() => {
+                    let k = rng.pick(&keys).clone();
+                    let cur = vs.remove(&k).unwrap();
+                    let req = cur.is_required();
+                    let e = one_edit(rng, cur.inner());
+                    vs.insert(k, if req { e.required() } else { e.optional() });
+                }
+                2 if !keys.is_empty() => {
+                    let k = rng.pick(&keys).clone();
+                    vs.remove(&k);
+                }
+                3 => {
+                    vs.insert("zz".to_string(), if rng.chance(1, 2) { edit_leaf(rng).required() } else { edit_leaf(rng).optional() });
+                }
+                _ => {
+                    ip = match ip {
+                        Some(_) => None,
+                        None => Some(Box::new(IndexedProperty { key: Runtype::string(), value: edit_leaf(rng).required() })),
+                    };
+                }
+            }
+            Runtype::new(RuntypeKind::Object { vs, indexed_properties: ip })
+        }
+        RuntypeKind::AnyOf(ms) | RuntypeKind::AllOf(ms) => {
+            let is_any = matches!(t.kind, RuntypeKind::AnyOf(_));
+            let mut v: Vec<Runtype> = ms.iter().cloned().collect();
+            match rng.below(3) {
+                0 if v.len() > 1 => {
+                    let i = rng.below(v.len());
+                    v.remove(i);
+                }
+                1 => v.push(edit_leaf(rng)),
+                _ => {
+                    let i = rng.below(v.len());
+                    v[i] = one_edit(rng, &v[i]);
+                }
+            }
+            if is_any { raw_any_of(v) } else { raw_all_of(v) }
+        }
+        _ => edit_leaf(rng),
+    }
+}
+
+pub fn size(t: &Runtype) -> usize {
+    match &t.kind {
+        RuntypeKind::Array(e) | RuntypeKind::StNot(e) => 1 + size(e),
+        RuntypeKind::Tuple { prefix_items, items } => 1 + prefix_items.iter().map(size).sum::<usize>() + items.as_ref().map(|x| size(x)).unwrap_or(0),
+        RuntypeKind::Object { vs, indexed_properties } => 1 + vs.values().map(|x| size(x.inner())).sum::<usize>() + indexed_properties.as_ref().map(|ip| size(ip.value.inner())).unwrap_or(0),
+        RuntypeKind::AnyOf(ms) | RuntypeKind::AllOf(ms) => 1 + ms.iter().map(size).sum::<usize>(),
+        _ => 1,
+    }
+}
+
+/// constructor kinds that occur in a type (for coverage histograms)
+pub fn kinds(t: &Runtype, out: &mut BTreeSet<&'static str>) {
+    out.insert(crate::refmodel::kind_name(&t.kind));
+    match &t.kind {
+        RuntypeKind::Array(e) | RuntypeKind::StNot(e) => kinds(e, out),
+        RuntypeKind::Tuple { prefix_items, items } => {
+            for p in prefix_items {
+                kinds(p, out);
+            }
+            if let Some(i) = items {
+                out.insert("tuple-rest");
+                kinds(i, out);
+            }
+        }
+        RuntypeKind::Object { vs, indexed_properties } => {
+            for v in vs.values() {
+                if !v.is_required() {
+                    out.insert("optional-prop");
+                }
+                kinds(v.inner(), out);
+            }
+            if let Some(ip) = indexed_properties {
+                out.insert("index-signature");
+                kinds(ip.value.inner(), out);
+            }
+        }
+        RuntypeKind::AnyOf(ms) | RuntypeKind::AllOf(ms) => {
+            for m in ms {
+                kinds(m, out);
+            }
+        }
+        _ => {}
+    }
+}
+
+pub fn show(t: &Runtype) -> String {
+    match &t.kind {
+        RuntypeKind::Ref(n) => match &n.ty {
+            RuntypeName::Address(a) => a.name.clone(),
+            RuntypeName::SemtypeRecursiveGenerated(i) => format!("RecursiveGenerated{}", i),
+            other => format!("{:?}", other),
+        },
+        RuntypeKind::Array(e) => format!("Array<{}>", show(e)),
+        RuntypeKind::StNot(e) => format!("Not<{}>", show(e)),
+        RuntypeKind::Tuple { prefix_items, items } => {
+            let mut parts: Vec<String> = prefix_items.iter().map(show).collect();
+            if let Some(i) = items {
+                parts.push(format!("...{}[]", show(i)));
+            }
+            format!("[{}]", parts.join(", "))
+        }
+        RuntypeKind::Object { vs, indexed_properties } => {
+            let mut parts: Vec<String> = vs.iter().map(|(k, v)| format!("{}{}: {}", k, if v.is_required() { "" } else { "?" }, show(v.inner()))).collect();
+            if let Some(ip) = indexed_properties {
+                parts.push(format!("[k: {}]{}: {}", show(&ip.key), if ip.value.is_required() { "" } else { "?" }, show(ip.value.inner())));
+            }
+            format!("{{{}}}", parts.join("; "))
+        }
+        RuntypeKind::AnyOf(ms) => format!("({})", ms.iter().map(show).collect::<Vec<_>>().join(" | ")),
+        RuntypeKind::AllOf(ms) => format!("({})", ms.iter().map(show).collect::<Vec<_>>().join(" & ")),
+        RuntypeKind::TplLitType(t) => t.describe(),
+        RuntypeKind::Const(RuntypeConst::Bool(b)) => b.to_string(),
+        RuntypeKind::Const(RuntypeConst::Number(n)) => format!("{}", n.to_f64()),
+        other => crate::refmodel::kind_name(other).to_string(),
+    }
+}
+
+// ------------------------------------------------------------------------------------------------
+// JSON form of the fragment (replay files)
+use serde_json::{Value as J, json};
+
+pub fn to_json(t: &Runtype) -> J {
+    match &t.kind {
+        RuntypeKind::Null => json!("null"),
+        RuntypeKind::Undefined => json!("undefined"),
+        RuntypeKind::Boolean => json!("boolean"),
+        RuntypeKind::Number => json!("number"),
+        RuntypeKind::String => json!("string"),
+        RuntypeKind::Any => json!("any"),
+        RuntypeKind::Never => json!("never"),
+        RuntypeKind::AnyArrayLike => json!("anyarray"),
+        RuntypeKind::Const(RuntypeConst::Bool(b)) => json!({"bool": b}),
+        RuntypeKind::Const(RuntypeConst::Number(n)) => json!({"num": n.to_f64()}),
+        RuntypeKind::TplLitType(tpl) => match crate::refmodel::single_const(tpl) {
+            Some(s) => json!({"str": s}),
+            None => json!({"unsupported": tpl.describe()}),
+        },
+        RuntypeKind::Array(e) => json!({"array": to_json(e)}),
+        RuntypeKind::StNot(e) => json!({"not": to_json(e)}),
+        RuntypeKind::Tuple { prefix_items, items } => json!({"tuple": prefix_items.iter().map(to_json).collect::<Vec<_>>(), "rest": items.as_ref().map(|x| to_json(x))}),
+        RuntypeKind::Object { vs, indexed_properties } => json!({
+            "object": vs.iter().map(|(k, v)| json!([k, to_json(v.inner()), !v.is_required()])).collect::<Vec<_>>(),
+            "index": indexed_properties.as_ref().map(|ip| json!([to_json(&ip.key), to_json(ip.value.inner()), !ip.value.is_required()])),
+        }),
+        RuntypeKind::AnyOf(ms) => json!({"anyof": ms.iter().map(to_json).collect::<Vec<_>>()}),
+        RuntypeKind::AllOf(ms) => json!({"allof": ms.iter().map(to_json).collect::<Vec<_>>()}),
+        RuntypeKind::Ref(n) => match &n.ty {
+            RuntypeName::Address(a) => json!({"ref": a.name}),
+            RuntypeName::SemtypeRecursiveGenerated(i) => json!({"gen": i}),
+            other => json!({"unsupported": format!("{:?}", other)}),
+        },
+        other => json!({"unsupported": crate::refmodel::kind_name(other)}),
+    }
+}
+
+pub fn from_json(j: &J) -> Runtype {
+    if let Some(s) = j.as_str() {
+        return match s {
+            "null" => Runtype::null(),
+            "undefined" => Runtype::undefined(),
+            "boolean" => Runtype::boolean(),
+            "number" => Runtype::number(),
+            "string" => Runtype::string(),
+            "any" => Runtype::any(),
+            "anyarray" => Runtype::any_array_like(),
+            _ => Runtype::never(),
+        };
+    }
+    let o = j.as_object().expect("type json");
+    if let Some(b) = o.get("bool") {
+        return lit_b(b.as_bool().unwrap());
+    }
+    if let Some(n) = o.get("num") {
+        return lit_n(n.as_f64().unwrap() as i64);
+    }
+    if let Some(s) = o.get("str") {
+        return lit_s(s.as_str().unwrap());
+    }
+    if let Some(e) = o.get("array") {
+        return Runtype::array(Box::new(from_json(e)));
+    }
+    if let Some(e) = o.get("not") {
+        return Runtype::st_not(Box::new(from_json(e)));
+    }
+    if let Some(p) = o.get("tuple") {
+        let rest = o.get("rest").filter(|r| !r.is_null()).map(|r| Box::new(from_json(r)));
+        return Runtype::tuple(p.as_array().unwrap().iter().map(from_json).collect(), rest);
+    }
+    if let Some(p) = o.get("object") {
+        let vs: BTreeMap<String, Optionality<Runtype>> = p
+            .as_array()
+            .unwrap()
+            .iter()
+            .map(|e| {
+                let t = from_json(&e[1]);
+                (e[0].as_str().unwrap().to_string(), if e[2].as_bool().unwrap() { t.optional() } else { t.required() })
+            })
+            .collect();
+        let ip = o.get("index").filter(|r| !r.is_null()).map(|e| {
+            let v = from_json(&e[1]);
+            Box::new(IndexedProperty { key: from_json(&e[0]), value: if e[2].as_bool().unwrap() { v.optional() } else { v.required() } })
+        });
+        return Runtype::new(RuntypeKind::Object { vs, indexed_properties: ip });
+    }
+    if let Some(ms) = o.get("anyof") {
+        return raw_any_of(ms.as_array().unwrap().iter().map(from_json).collect());
+    }
+    if let Some(ms) = o.get("allof") {
+        return raw_all_of(ms.as_array().unwrap().iter().map(from_json).collect());
+    }
+    if let Some(n) = o.get("ref") {
+        return Runtype::ref_(uuid(n.as_str().unwrap()));
+    }
+    if let Some(n) = o.get("gen") {
+        return Runtype::ref_(RuntypeUUID { ty: RuntypeName::SemtypeRecursiveGenerated(n.as_u64().unwrap() as usize), type_arguments: vec![] });
+    }
+    Runtype::never()
+}
+
+pub fn defs_to_json(defs: &[NamedSchema]) -> J {
+    J::Array(defs.iter().map(|d| json!([show(&Runtype::ref_(d.name.clone())), to_json(&d.schema)])).collect())
+}
+pub fn defs_from_json(j: &J) -> Vec<NamedSchema> {
+    j.as_array().map(|a| a.iter().map(|e| NamedSchema { name: uuid(e[0].as_str().unwrap()), schema: from_json(&e[1]) }).collect()).unwrap_or_default()
+}
